@@ -31,43 +31,52 @@ type Obl struct {
 }
 
 type Engine struct {
-	Pkg      *ssa.Package
-	CG       *callgraph.Graph
-	atoms    []atomInfo
-	valAtom  map[ssa.Value]Atom
-	lenAtoms map[ssa.Value]Atom
-	cellAtom map[string]Atom
-	tupAtom  map[string]Atom
-	temps    map[int]Atom
-	vids     map[ssa.Value]int
-	ver      int64
-	Obls     map[string]*Obl
-	oblOrder []string
-	stack    []*frame
-	MaxDepth int
-	callees  map[ssa.CallInstruction][]*ssa.Function
-	Steps    int
-	MaxSteps int
-	Exceeded bool
-	Trace    func(string)
+	Pkg       *ssa.Package
+	CG        *callgraph.Graph
+	atoms     []atomInfo
+	valAtom   map[ssa.Value]Atom
+	lenAtoms  map[ssa.Value]Atom
+	cellAtom  map[string]Atom
+	tupAtom   map[string]Atom
+	temps     map[int]Atom
+	vids      map[ssa.Value]int
+	ver       int64
+	Obls      map[string]*Obl
+	oblOrder  []string
+	stack     []*frame
+	MaxDepth  int
+	callees   map[ssa.CallInstruction][]*ssa.Function
+	Steps     int
+	MaxSteps  int
+	Exceeded  bool
+	Trace     func(string)
+	TraceJoin bool
+	TraceFn   string
 	// ZeroReceiver: decoder receivers are zero values (DESIGN §3 assumption)
 	ZeroReceiver bool
 	Externals    map[string]int // external callees met (for the evidence)
 	Universe     map[*ssa.Function]bool
 	ordinals     map[*ssa.Function]map[ssa.Instruction]int
 	// Hooks for property-specific obligations
-	OnLoop func(e *Engine, fr *frame, l *loopInfo)
-	Unknown []string // constructs the engine does not model (reported as undecided)
+	OnLoop    func(e *Engine, fr *frame, l *loopInfo)
+	Unknown   []string // constructs the engine does not model (reported as undecided)
 	wrapAtoms map[string]Atom
-	wrapDeps  map[Atom][]Atom // base atom -> wrap atoms whose defining expression mentions it
-	ReflectRule func(e *Engine, fr *frame, st *State, in *ssa.Call, name string)
+	isCell    map[Atom]bool
+	snapAtoms map[string]Atom
+	objType   map[string]string // abstract object -> named type of its content
+	pureSeen  map[string]bool
+	// SpareOnReflectSet: type names whose objects a reflect setter cannot modify (justified by the caller)
+	SpareOnReflectSet map[string]bool
+	ReflectSets       int
+	wrapDeps          map[Atom][]Atom // base atom -> wrap atoms whose defining expression mentions it
+	ReflectRule       func(e *Engine, fr *frame, st *State, in *ssa.Call, name string)
 }
 
 func NewEngine(pkg *ssa.Package, cg *callgraph.Graph) *Engine {
 	e := &Engine{Pkg: pkg, CG: cg, valAtom: map[ssa.Value]Atom{}, lenAtoms: map[ssa.Value]Atom{}, cellAtom: map[string]Atom{},
 		tupAtom: map[string]Atom{}, temps: map[int]Atom{}, vids: map[ssa.Value]int{}, Obls: map[string]*Obl{}, MaxDepth: 6,
 		callees: map[ssa.CallInstruction][]*ssa.Function{}, MaxSteps: 40000000, Externals: map[string]int{}, Universe: map[*ssa.Function]bool{},
-		ordinals: map[*ssa.Function]map[ssa.Instruction]int{}}
+		ordinals: map[*ssa.Function]map[ssa.Instruction]int{}, objType: map[string]string{}, SpareOnReflectSet: map[string]bool{}, isCell: map[Atom]bool{}, snapAtoms: map[string]Atom{}}
 	if cg != nil {
 		for _, n := range cg.Nodes {
 			for _, ed := range n.Out {
@@ -241,6 +250,9 @@ func (e *Engine) cellAtomOf(key string, r Range) Atom {
 	}
 	a := e.newAtom("["+key+"]", r)
 	e.cellAtom[key] = a
+	if !strings.HasPrefix(key, "pure:") {
+		e.isCell[a] = true
+	}
 	return a
 }
 
